@@ -618,6 +618,41 @@ inline void hookCallback(HyperedgeImprover *imp, const char *stage, int phase, H
     HookState &h = hookState();
     Router *router = imp->*get(TRouter());
     bool isMove = stage[0] == 'm';
+    if (stage[0] == 'w') {
+        // after both passes of writeEdgesToConns for the tree rooted at `node`: the tree, the destination
+        // ends the connectors have, and the routes as written
+        if (h.pairs >= 40 || h.lines > 12000) return;
+        h.nid.clear(); h.eid.clear(); h.next = 0;
+        h.nextJ = router->newObjectId(); h.nextC = h.nextJ + 1;
+        HookDump d = hookDump(h, imp, node, nullptr, nullptr, router);
+        long s0 = 2 * h.pairs, s1 = s0 + 1;
+        if (h.pairs > 0) printf("hop %ld resync\n", s0);
+        printAt(d.head, s0);
+        for (const std::string &l : d.lines) printAt(l, s0);
+        printf("hop %ld write %ld\n", s1, h.nid[node]);
+        std::set<ConnRef *> conns;
+        for (auto &p : h.eid) if (p.first->conn) conns.insert(p.first->conn);
+        printf("hdst %ld", s1);
+        for (ConnRef *c : conns) {
+            ConnEnd e2 = c->endpointConnEnds().second;
+            if (e2.type() == ConnEndJunction) printf(" %u:%u", c->id(), e2.junction()->id());
+            else if (e2.type() == ConnEndShapePin) printf(" %u:-", c->id());
+        }
+        printf("\n");
+        printAt(d.head, s1);
+        for (const std::string &l : d.lines) printAt(l, s1);
+        for (ConnRef *c : conns) {
+            printf("hroute %ld %u", s1, c->id());
+            const PolyLine &pl = c->*get(TDisp());
+            for (size_t q = 0; q < pl.size(); ++q) printf(" %s %s", vh::hx(pl.ps[q].x).c_str(), vh::hx(pl.ps[q].y).c_str());
+            printf("\n");
+        }
+        printf("hwrite %ld ok\n", s1);
+        fflush(stdout);
+        h.lines += (long) (2 * d.lines.size());
+        ++h.pairs;
+        return;
+    }
     if (phase == 0) {
         h.nid.clear(); h.eid.clear(); h.next = 0;
         // ids the router will give to the next new junction and connector (JunctionRef first, then ConnRef)
